@@ -64,6 +64,13 @@ type clientScript struct {
 	PrematureBytes int          // cfPremature: bytes (0..4) of that request's length prefix read before answering
 	PrematureExit  bool         // cfPremature: the process exits right after that answer
 	AbortDelayMs   int          // how long the process takes to die after its context is cancelled
+	// InProcess > 0 models a peer run through the repository's in-process seam
+	// (as the reference clients are): cancellation only cancels its context,
+	// nothing closes its pipes until the function returns, it handles at most
+	// InProcess requests at a time, waits for a free slot (or its context)
+	// before reading on, and returns only after all workers have written their
+	// results.
+	InProcess int
 	SerialBase     int
 }
 
@@ -273,7 +280,97 @@ func (c *simClient) planFor(i int) answerPlan {
 }
 
 // impl is the process body handed to runInProcess.
-func (c *simClient) impl(ctx context.Context, _ []string, in io.ReadCloser, out, _ io.WriteCloser) error {
+func (c *simClient) impl(ctx context.Context, args []string, in io.ReadCloser, out, errw io.WriteCloser) error {
+	if c.sc.InProcess > 0 {
+		return c.implInProcess(ctx, in, out)
+	}
+	return c.implProcess(ctx, args, in, out, errw)
+}
+
+// implInProcess behaves like referenceclient.run: see clientScript.InProcess.
+func (c *simClient) implInProcess(ctx context.Context, in io.ReadCloser, out io.WriteCloser) error {
+	c.in, c.out = in, out
+	c.started = true
+	c.faultFired["in-process-peer"]++
+	defer func() {
+		c.exited = true
+		c.exitedAt = c.elapsed()
+	}()
+	slots := make(chan struct{}, c.sc.InProcess)
+	workers := 0
+	allDone := make(chan struct{}, 1)
+	wait := func() {
+		for workers > 0 {
+			simrt.Recv(allDone, "simclient.inproc.wait")
+		}
+	}
+	for {
+		var hdr [4]byte
+		if _, err := simrt.ReadFull(in, hdr[:], "simclient.read"); err != nil {
+			wait()
+			return nil
+		}
+		buf := make([]byte, binary.BigEndian.Uint32(hdr[:]))
+		if _, err := simrt.ReadFull(in, buf, "simclient.read"); err != nil {
+			wait()
+			return err
+		}
+		req := &conformancev1.ClientCompatRequest{}
+		if err := proto.Unmarshal(buf, req); err != nil {
+			wait()
+			return err
+		}
+		idx := len(c.received)
+		c.received = append(c.received, req)
+		c.receivedAt = append(c.receivedAt, c.sim.Steps())
+		c.sim.MixLog("req:" + req.TestName)
+		if c.onReceive != nil {
+			c.onReceive(len(c.received), req)
+		}
+		plan := c.planFor(idx)
+		if c.planFn != nil {
+			plan = c.planFn(req)
+		}
+		c.plans = append(c.plans, plan)
+		// wait for a free worker slot or cancellation
+		simrt.Yield("simclient.inproc.slot")
+		select {
+		case slots <- struct{}{}:
+			simrt.AfterBlock("simclient.inproc.slot")
+		case <-ctx.Done():
+			simrt.AfterBlock("simclient.inproc.slot")
+			c.faultFired["in-process-cancelled-while-waiting-for-slot"]++
+			wait()
+			return ctx.Err()
+		}
+		workers++
+		name := req.TestName
+		simrt.Go("simclient.inproc.worker", func() {
+			defer func() {
+				<-slots
+				workers--
+				select {
+				case allDone <- struct{}{}:
+				default:
+				}
+			}()
+			if plan.DelayMs > 0 || plan.Never {
+				d := time.Duration(plan.DelayMs) * time.Millisecond
+				if plan.Never {
+					d = 24 * time.Hour // an RPC that hangs until it is cancelled
+					c.faultFired["rpc-hangs-until-cancelled"]++
+				}
+				simrt.SleepCtx(ctx, d, "simclient.inproc.rpc")
+			}
+			if c.beforeAnswer != nil {
+				c.beforeAnswer(name)
+			}
+			c.writeAnswer(name, plan.AsError || ctx.Err() != nil, false)
+		})
+	}
+}
+
+func (c *simClient) implProcess(ctx context.Context, _ []string, in io.ReadCloser, out, _ io.WriteCloser) error {
 	c.in, c.out = in, out
 	c.started = true
 	defer func() {
